@@ -64,3 +64,24 @@ Theorem C04_example :
   i_load_doc (d_mime ex_d) None (xml_parse (snd (i_metaxml ex_env ex_d))) (xml_parse (i_contentxml ex_env ex_d)) (xml_parse (i_stylesxml ex_env ex_d)) = finish (expected ex_d).
 Proof. exact ex_runs. Qed.
 Print Assumptions C04_example.
+
+(* the general form: sections holding anything - text between the elements (a pretty-printed source), CDATA, a section
+   with nothing but white space.  expected_gen d: each section with its children as a parser delivers them (canon: CDATA
+   is text, adjacent text merged) and kept by the loader's rule (all of them when an element is among them, none
+   otherwise); it is expected d when the sections hold elements only *)
+Theorem C04_roundtrip_any_sections : forall env d, sections_named d -> NoDup (all_regs d) ->
+  doc_ok F env (settings_tree d) = true -> doc_ok F env (meta_tree tv d) = true ->
+  doc_ok F env (content_tree RA d) = true -> doc_ok F env (styles_tree RA d) = true ->
+  i_load_doc (d_mime d) (if has_kids (d_settings d) then xml_parse (i_settingsxml env d) else None)
+             (xml_parse (snd (i_metaxml env d))) (xml_parse (i_contentxml env d)) (xml_parse (i_stylesxml env d)) = finish (expected_gen d).
+Proof. exact save_load_roundtrip_gen. Qed.
+Print Assumptions C04_roundtrip_any_sections.
+Theorem C04_general_form_agrees : forall d, sections_ok d -> expected_gen d = expected d.
+Proof. exact expected_gen_strict. Qed.
+Print Assumptions C04_general_form_agrees.
+Theorem C04_example_with_text_in_sections : sections_named ex_pp /\ ~ sections_ok ex_pp /\ NoDup (all_regs ex_pp) /\
+  i_load_doc (d_mime ex_pp) None (xml_parse (snd (i_metaxml ex_env ex_pp))) (xml_parse (i_contentxml ex_env ex_pp)) (xml_parse (i_stylesxml ex_env ex_pp)) = finish (expected_gen ex_pp) /\
+  d_scripts (expected_gen ex_pp) = Elem (q_off "scripts") [] [] /\
+  d_body (expected_gen ex_pp) = Elem (q_off "body") [] [ws; Elem (q_off "text") [] [ex_p "P1" "a < b"; ws; ex_p "Standard" "x"]; TextN [10; 32]].
+Proof. exact ex_pp_runs. Qed.
+Print Assumptions C04_example_with_text_in_sections.
